@@ -2089,7 +2089,9 @@ class ktensor:
         if (
             len(vector) > 0
             and isinstance(vector, np.ndarray)
-            and isinstance(vector.squeeze()[0], (int, float, np.int_, np.float64))
+            and isinstance(
+                np.atleast_1d(vector.squeeze())[0], (int, float, np.int_, np.float64)
+            )
         ):
             return self.ttv([vector], dims, exclude_dims)
 
@@ -2098,7 +2100,7 @@ class ktensor:
 
         # Check that each multiplicand is the right size.
         for i in range(dims.size):
-            if vector[vidx[i]].squeeze().shape != (self.shape[dims[i]],):
+            if np.atleast_1d(vector[vidx[i]].squeeze()).shape != (self.shape[dims[i]],):
                 assert False, (
                     f"Multiplicand is wrong size. Vector[{i}] was "
                     f"{vector[vidx[i]].squeeze().shape}"
@@ -2112,7 +2114,7 @@ class ktensor:
         new_weights = self.weights.copy()
         for i, dim in enumerate(dims):
             new_weights = new_weights * (
-                self.factor_matrices[dim].T @ vector[vidx[i]].squeeze()
+                self.factor_matrices[dim].T @ np.atleast_1d(vector[vidx[i]].squeeze())
             )
 
         # Create final result
